@@ -28,6 +28,9 @@ type BStep struct {
 	Body   engine.Bytes `json:"body,omitempty"`
 	Out    string       `json:"out,omitempty"`
 	Burst  bool         `json:"burst,omitempty"`
+	// Chunked: the POST declares no length (Transfer-Encoding: chunked, what an
+	// HTTP client does for a body of unknown size).
+	Chunked bool `json:"chunked,omitempty"`
 }
 
 func (s BStep) String() string {
@@ -36,7 +39,11 @@ func (s BStep) String() string {
 		b = "~"
 	}
 	if s.Op == "http" {
-		return fmt.Sprintf("%shttp #%d %s %q %s", b, s.K, s.Method, s.CType, s.Body)
+		ch := ""
+		if s.Chunked {
+			ch = " (chunked)"
+		}
+		return fmt.Sprintf("%shttp #%d %s %q%s %s", b, s.K, s.Method, s.CType, ch, s.Body)
 	}
 	return fmt.Sprintf("%srelease k=%d %s", b, s.K, s.Out)
 }
@@ -191,6 +198,10 @@ func RunBridge(t *testing.T, sc BScenario) (h *BHistory) {
 					method = "POST"
 				}
 				req := httptest.NewRequest(method, "/", strings.NewReader(string(st.Body)))
+				if st.Chunked {
+					req.ContentLength = -1
+					req.TransferEncoding = []string{"chunked"}
+				}
 				if st.CType != "-" {
 					ct := st.CType
 					if ct == "" {
